@@ -25,8 +25,8 @@ WHITE_BOX = ["KdqTreeBatch._test_dist (when present; the public to_plotly_datafr
 
 def scenarios(tier):
     k = 1 if tier == "quick" else 10
-    return [("HDDDM", 160 * k), ("CDBD", 120 * k), ("KdqTreeBatch", 100 * k), ("NNDVI", 90 * k),
-            ("KdqTreeBatch_big", 10 * k), ("HDDDM_big", 10 * k)]
+    return [("HDDDM", 320 * k), ("CDBD", 240 * k), ("KdqTreeBatch", 200 * k), ("NNDVI", 180 * k),
+            ("KdqTreeBatch_big", 16 * k), ("HDDDM_big", 16 * k)]
 
 
 def gen(rng, scenario, tier):
